@@ -5,6 +5,7 @@ import (
 	"math"
 	"sort"
 	"strings"
+	"sync"
 	"testing"
 
 	"github.com/oneconcern/datamon/pkg/filetracker"
@@ -108,6 +109,19 @@ func gen22(seed int64, tier string) []drv.Case {
 			seq = append(seq, write{off, l})
 		}
 		add("huge-spans", params{Mode: "spans", Seq: seq})
+	}
+	// concurrent writers (parallel WriteFile requests on one file): disjoint ranges tracked by several goroutines at once
+	nc := 40
+	if tier == "thorough" {
+		nc = 1500
+	}
+	rc := gen.Rand(seed, "c22-conc")
+	for i := 0; i < nc; i++ {
+		var seq []write
+		for j := 0; j < 40+rc.Intn(200); j++ {
+			seq = append(seq, write{int64(j)*50 + int64(rc.Intn(10)), 1 + int64(rc.Intn(30))})
+		}
+		add("concurrent-writers", params{Mode: "concurrent", Seq: seq, Depth: 2 + rc.Intn(15)})
 	}
 	// random long sequences
 	n := 400
@@ -231,6 +245,55 @@ func run22(c drv.Case, res *drv.Result) {
 		res.Violate(kind, sig, "after writes %s: %s", seqStr(seq), msg)
 	}
 	switch p.Mode {
+	case "concurrent":
+		// Depth goroutines share the writes of Seq (disjoint ranges, 50 apart); afterwards every offset is judged
+		t := filetracker.VerifNewTFile()
+		var wg sync.WaitGroup
+		start := make(chan struct{})
+		for g := 0; g < p.Depth; g++ {
+			wg.Add(1)
+			go func(g int) {
+				defer wg.Done()
+				<-start
+				for i := g; i < len(p.Seq); i += p.Depth {
+					t.VerifTrackWrite(p.Seq[i].Off, p.Seq[i].Len)
+				}
+			}(g)
+		}
+		close(start)
+		wg.Wait()
+		var bm []bool
+		for _, w := range p.Seq {
+			bm = apply(bm, w)
+		}
+		for o := int64(0); o < int64(len(bm))+3; o++ {
+			queries++
+			want := o < int64(len(bm)) && bm[o]
+			n, mod := t.VerifGetRangeToRead(o, 1000)
+			bad := ""
+			switch {
+			case mod != want && want:
+				bad = "modified-reported-as-base"
+			case mod != want:
+				bad = "base-reported-as-modified"
+			case n < 1 || n > 1000:
+				bad = "bad-length"
+			default:
+				for c := o + 1; c < o+n && c < int64(len(bm)); c++ {
+					if bm[c] != want {
+						bad = "range-crosses-boundary"
+						break
+					}
+				}
+			}
+			if bad != "" {
+				res.Violate(bad, "concurrent-writers", "after %d disjoint writes tracked by %d goroutines at once: getRangeToRead(%d,1000)=(%d,modified=%v), offset written=%v", len(p.Seq), p.Depth, o, n, mod, want)
+				return
+			}
+		}
+		res.Nontrivial = true
+		res.Canon = fmt.Sprint(p.Depth, seqStr(p.Seq))
+		res.Sample = map[string]interface{}{"writes": len(p.Seq), "goroutines": p.Depth, "queries": queries}
 	case "spans":
 		t := filetracker.VerifNewTFile()
 		var iv [][2]int64 // disjoint, sorted, non-adjacent union of the writes
